@@ -535,7 +535,8 @@ func (r *replayer) replayOne(v *gosym.Violation) {
 		if !v.Replayed && v.SchedDependent {
 			// the counterexample needs an interleaving: repeat the run with random delays at the VM's scheduling
 			// points (hooks under the verif build tag); it is confirmed only if one of the runs fails the same assertion
-			for attempt := 1; attempt <= 150 && !v.Replayed; attempt++ {
+			chaosDeadline := time.Now().Add(150 * time.Second) // the repeated runs of one counterexample share a wall budget
+			for attempt := 1; attempt <= 150 && !v.Replayed && time.Now().Before(chaosDeadline); attempt++ {
 				c := exec.Command(bin, "-test.run", "^TestVerifReplay$", "-test.timeout", "60s", "-test.v")
 				c.Dir = filepath.Join(repoDir, pkgRel)
 				c.Env = append(os.Environ(), "VERIF_REPLAY="+v.ReplayFile, "VERIF_HARNESS="+v.Harness, fmt.Sprintf("VERIF_CHAOS_SEED=%d", attempt), fmt.Sprintf("GOMAXPROCS=%d", 2+attempt%7))
